@@ -2,3 +2,7 @@ import InToto.Basic
 import InToto.Rulelib
 import InToto.Glob
 import InToto.Rules
+import InToto.Json
+import InToto.Meta
+import InToto.Subst
+import InToto.Verify
